@@ -40,8 +40,9 @@ def gen_str(rng, tabs=False, for_text=False):
         # sqlalchemy.text() would read :name as a bind parameter, also inside quotes
         parts = [x.replace(":", "") for x in parts]
         if for_text in ("text", "bind"):
-            for _ in range(rng.choice([0, 1, 1, 2])):
-                parts.insert(rng.randint(0, len(parts)), rng.choice(TEXT_ATOMS))
+            for _ in range(rng.choice([0, 1, 1, 2, 2])):
+                # the escape forms (first four atoms) twice as often as the rest
+                parts.insert(rng.randint(0, len(parts)), rng.choice(TEXT_ATOMS[:4] + TEXT_ATOMS))
         if for_text == "bind" and rng.random() < 0.5:
             parts.insert(rng.randint(0, len(parts)), rng.choice(BIND_ATOMS))
     return "".join(parts)
@@ -257,7 +258,7 @@ class BodyGen:
 
         for _ in range(rng.choice([0, 1, 2, 3, 3, 4, 6])):
             av = avail()
-            kind = rng.choice(["create", "create", "add_column", "index", "bulk", "bulk", "bulk", "execute", "temp"])
+            kind = rng.choice(["create", "create", "add_column", "index", "bulk", "bulk", "bulk", "execute", "execute", "temp"])
             if kind == "create" or not av:
                 t = self.gen_table(rev)
                 own.append(t)
